@@ -1259,6 +1259,15 @@ class ModelBuilder:
                     self._create_scenario(project, value)
                 elif key == "extend":
                     pass  # Handle extensions later
+                elif key == "workinghours" and isinstance(value, dict):
+                    # Project default working hours: several statements add up, as on a resource
+                    from scriptplan.core.working_hours import WorkingHours
+
+                    default_wh = project.attributes.get("workinghours")
+                    if not hasattr(default_wh, "set_hours"):
+                        default_wh = WorkingHours(project)
+                        project.attributes["workinghours"] = default_wh
+                    default_wh.set_hours(value.get("days", []), value.get("ranges", []))
                 else:
                     with contextlib.suppress(ValueError, KeyError):
                         project[key] = value
